@@ -114,8 +114,13 @@ class DBusMessage :
 
         self.headers = []
 
-        for attr_name, code, _ in _headerAttrs:
+        for attr_name, code, is_required in _headerAttrs:
             hval = getattr(self, attr_name, None)
+
+            if hval is None and is_required:
+                raise error.MarshallingError(
+                    'Required header field "%s" is missing' % (attr_name,)
+                )
 
             if hval is not None:
                 if attr_name == 'path':
